@@ -52,6 +52,12 @@ struct op_apply::substate
     m_value->get_origin ().set_next (m_scon, std::move (stk));
   }
 
+  ~substate ()
+  {
+    // What was constructed by hand above is destroyed by hand as well.
+    m_scon.des <op_apply::rendezvous> (m_value->get_rdv_ll ());
+  }
+
   stack::uptr
   next ()
   {
